@@ -54,6 +54,8 @@ Analyse(d) ==
   IF ~d.has \/ d.raw = <<>> \/ d.type = "binary" THEN [an |-> FALSE, ins |-> 0, del |-> 0, unspec |-> FALSE]
   ELSE LET dl == DiffLines(d) IN
     IF ~dl.ok THEN [an |-> FALSE, ins |-> 0, del |-> 0, unspec |-> TRUE]
+    ELSE IF \E i \in 1..Len(dl.lines) : \E q \in 1..Len(dl.lines[i]) : dl.lines[i][q] = 10
+         THEN [an |-> FALSE, ins |-> 0, del |-> 0, unspec |-> TRUE]   \* a "line" that contains LF: unspecified zone
     ELSE LET r == RunBytes(dl.lines, TRUE) IN
       IF r.err = "none" THEN [an |-> TRUE, ins |-> r.tins, del |-> r.tdel, unspec |-> FALSE]
       ELSE [an |-> FALSE, ins |-> 0, del |-> 0, unspec |-> r.err = "unspec"]
